@@ -47,3 +47,28 @@ Definition chk_C09 (c o : value) : bool :=
       end
   | _ => true
   end.
+
+(* one middleware instance across a history: every connection is judged against the registrations in force when it
+   arrives (a later add() for a user replaces the password: the table is kept in registration order, later wins) *)
+Definition creds_value (t : list (bytes * bytes)) : list value := map (fun kv => VL [VB (fst kv); VB (snd kv)]) t.
+
+Fixpoint chk_C09_steps (realm : bytes) (orc : value) (table : list (bytes * bytes)) (steps logs : list value) : bool :=
+  match steps with
+  | [] => match logs with [] => true | _ => false end
+  | VL [VI 0; VB u; VB pw] :: r => chk_C09_steps realm orc (table ++ [(u, pw)]) r logs
+  | VL [VI 1; VL ops0; VL [VB hv; VI present]] :: r =>
+      match logs with
+      | o :: logs' =>
+          chk_C09 (VL [VB realm; VL (creds_value table); VL ops0; orc; VL [VI 9; VB realm; VL (creds_value table); VB hv; VI present]]) o
+          && chk_C09_steps realm orc table r logs'
+      | [] => false
+      end
+  | _ => true
+  end.
+
+Definition chk_C09m (c o : value) : bool :=
+  match c, o with
+  | VL [VB realm; VL steps; orc], VL logs => chk_C09_steps realm orc [] steps logs
+  | VL [VB _; VL _; _], _ => false
+  | _, _ => true
+  end.
